@@ -322,6 +322,17 @@ Definition readQ (v : vol) : act (vol * rres) :=
 
 Inductive outcome := OOk | OFailed | OShutdown.   (* nil | other error | experr.IsShutdownErr *)
 
+(* retry_sender.go Send: the ends of the retry loop and the class of the error the queue's Done
+   callback receives (experr.IsShutdownErr is true exactly for the stopCh branch, through any
+   number of %w wrappers) *)
+Inductive send_end := SendOk | SendPermanent | SendNoMoreRetries | SendCtxDone | SendStopped.
+Definition outcome_of_send (e : send_end) : outcome :=
+  match e with
+  | SendOk => OOk
+  | SendStopped => OShutdown
+  | SendPermanent | SendNoMoreRetries | SendCtxDone => OFailed
+  end.
+
 (* func (pq) onDone *)
 Definition onDone (c : cfg) (v : vol) (index : N) (elSize : Z) (o : outcome) : act vol :=
   let v1 := set_q v (Z.max 0 (qsize v - elSize)) in
